@@ -145,6 +145,12 @@ def gen_group(rng, gi):
         lenarr = (arr, ln)
     rk = rng.choice(apigen.RETURN_KINDS)
     ret = {'kind': rk, 'sp': 'void' if rk == 'void' else rng.choice(apigen.KINDS[rk]), 'is_ret': True, 'name': None}
+    if lenarr and rng.random() < 0.25:
+        # the array is the return value; its length parameter stays among the parameters
+        params.remove(lenarr[0])
+        rk = rng.choice(['intptr', 'strptr', 'record'])
+        ret = {'kind': rk, 'sp': rng.choice(apigen.KINDS[rk]), 'is_ret': True, 'name': None}
+        lenarr = (ret, lenarr[1])
     sites = []
     for p in params:
         p['anns'] = gen_site_annotations(rng, p, params, parent) if p['kind'] != 'destroy' else collections.OrderedDict()
@@ -158,7 +164,7 @@ def gen_group(rng, gi):
         del s['anns'][a]
     if lenarr:
         arr, ln = lenarr
-        d = rng.choice([None, 'out', 'inout', 'inout'])
+        d = None if arr['is_ret'] else rng.choice([None, 'out', 'inout', 'inout'])
         arr['anns'] = collections.OrderedDict(([(d, [])] if d else []) + [('array', collections.OrderedDict([('length', 'n_vals')]))])
         ln['anns'] = collections.OrderedDict()
     return {'parent': parent, 'params': params, 'ret': ret, 'gi': gi}
